@@ -384,7 +384,18 @@ func main() {
 	}
 	perCase := 10
 	n := r.N(3000, 80000) / perCase
-	r.Parallel("tlp", n, func(i int) { runCase(r, i, perCase) })
+	only := map[int]bool{}
+	for _, f := range strings.Split(os.Getenv("VERIF_CASES"), ",") {
+		var k int
+		if _, err := fmt.Sscan(f, &k); err == nil {
+			only[k] = true
+		}
+	}
+	r.Parallel("tlp", n, func(i int) {
+		if len(only) == 0 || only[i] {
+			runCase(r, i, perCase)
+		}
+	})
 	classProbes(r)
 	pinned(r)
 
@@ -417,7 +428,7 @@ func runCase(r *core.Run, i int, perCase int) {
 		g.NoSubquery = sh.noSub
 		depth := 1 + rnd.Intn(3)
 		p := g.Bool(depth)
-		evalPredicate(r, s, setup, sh, p, fmt.Sprintf("tlp/%d/%d", i, k))
+		evalPredicate(r, s, sc, sh, p, fmt.Sprintf("tlp/%d/%d", i, k))
 	}
 }
 
@@ -472,7 +483,8 @@ func features(p *g6blib.Expr) feats {
 	return f
 }
 
-func evalPredicate(r *core.Run, s *core.Sess, setup []string, sh *shape, p *g6blib.Expr, caseID string) {
+func evalPredicate(r *core.Run, s *core.Sess, sc *g6blib.Schema, sh *shape, p *g6blib.Expr, caseID string) {
+	setup := sc.Setup()
 	psql := p.SQL()
 	o := judge(s, sh, psql)
 	f := features(p)
@@ -560,13 +572,49 @@ func evalPredicate(r *core.Run, s *core.Sess, setup []string, sh *shape, p *g6bl
 			o2 := judge(s, sh, psql)
 			s.MustExec("SET @@SESSION.disable_merge_join = 0")
 			if o2.verdict == "held" {
-				sig = "in-subquery-null-antijoin-mergejoin"
+				sig = sigF9
 			}
 		}
 	}
 	w := witness()
+	if sig != sigF9 {
+		// minimise predicate and rows; the signature names the minimised failing input class and the failure mode
+		mp, msc, mo := minimize(s, sc, sh, p)
+		sig = "c05:" + sh.clause + ":" + mo.mode + ":" + mp.Shape()
+		w["minimized"] = map[string]any{"predicate": mp.SQL(), "setup": msc.Setup(), "queries": mo.queries, "results": mo.results, "mode": mo.mode}
+		if ks := matchKnown(sh, mp, msc, mo); ks != "" {
+			sig = ks
+		}
+	}
 	w["signature"] = sig
 	r.Violation(sig, w)
+}
+
+// minimize shrinks the predicate (on the live session) and then the rows (fresh engines) of a violated case.
+func minimize(s *core.Sess, sc *g6blib.Schema, sh *shape, p *g6blib.Expr) (*g6blib.Expr, *g6blib.Schema, *outcome) {
+	mp := g6blib.Minimize(p, func(c *g6blib.Expr) bool { return judge(s, sh, c.SQL()).verdict == "violated" }, 400)
+	psql := mp.SQL()
+	cur := sc
+	failsOn := func(c *g6blib.Schema) *outcome {
+		e := core.NewEng("d")
+		defer e.Close()
+		s2 := e.NewSess()
+		for _, q := range c.Setup() {
+			if r := s2.Exec(q); r.Failed() {
+				return &outcome{verdict: "inconclusive"}
+			}
+		}
+		return judge(s2, sh, psql)
+	}
+	for ti := range cur.Tables {
+		for ri := len(cur.Tables[ti].Rows) - 1; ri >= 0; ri-- {
+			c := cur.WithoutRow(ti, ri)
+			if failsOn(c).verdict == "violated" {
+				cur = c
+			}
+		}
+	}
+	return mp, cur, failsOn(cur)
 }
 
 // filterBelowJoin reports whether the plan text has a Filter / IndexedTableAccess-with-filters node
